@@ -50,12 +50,23 @@ def _gen_case(rng, tier):
     rel = RC.Rel(world)
     nobj = len(world["objects"])
     fl = rng.choice(["push", "verifying"])
-    n_regs = rng.choice([1, 2, 3, 3, 4])
+    # deep mode: two roots and a chain >= 4 deep below one of them (mostly single bases, some with a
+    # second base), interior registries are re-based and EVERY registry below is queried afterwards
+    deep = rng.random() < 0.3
+    n_regs = rng.choice([5, 5, 6]) if deep else rng.choice([1, 2, 3, 3, 4])
     ops = []
     cur_bases = {}
     for r in range(n_regs):
-        bs = [b for b in range(r) if rng.random() < 0.6][-2:]
-        bs.reverse()
+        if deep:
+            if r < 2:
+                bs = []
+            elif r == 2:
+                bs = [rng.choice([0, 1])]
+            else:
+                bs = [r - 1] if rng.random() < 0.75 else [r - 1, rng.choice([0, 1])]
+        else:
+            bs = [b for b in range(r) if rng.random() < 0.6][-2:]
+            bs.reverse()
         ops.append(["newreg", fl, bs])
         cur_bases[r] = bs
     key_pool = list(ifaces) + list(classes) + [0]
@@ -127,7 +138,7 @@ def _gen_case(rng, tier):
     # the property does not constrain, but the exact tie would see it); (2) AdapterRegistry.rebuild()
     # re-runs __init__ and thereby forgets its sub-registries (defect in C05/C06's subject).
     kinds = ["subscribe", "unsubscribe", "register", "unregister", "setregbases", "query", "qmq"]
-    ws = [9, 4, 3, 1, 1.2 if n_regs > 1 else 0, 4, 3]
+    ws = [9, 4, 3, 1, (3.5 if deep else 1.2) if n_regs > 1 else 0, 4, 3]
     where = []     # (registry, req, provided-or-None) of every subscribe
 
     def above(r):
@@ -142,6 +153,8 @@ def _gen_case(rng, tier):
     for _ in range(n_mut):
         k = rng.choices(kinds, ws)[0]
         r = rng.randrange(n_regs)
+        if deep and k in ("subscribe", "unsubscribe") and rng.random() < 0.5:
+            r = rng.randrange(3)            # keep the roots and the top of the chain populated
         if k == "subscribe":
             u = rng.random()
             if keys and u < 0.45:
@@ -196,11 +209,31 @@ def _gen_case(rng, tier):
                 o = rng.choice(regs)
                 ops.append(["unregister", r, o[2], o[3], o[4], None if rng.random() < 0.6 else RC.gen_value(rng, 4)])
         elif k == "setregbases":
+            below = lambda y: [x for x in range(n_regs) if x != y and y in above(x)]   # noqa: E731
+            if deep:
+                # an interior registry, preferably with a chain of >= 2 registries below it
+                inner = [y for y in range(1, n_regs) if below(y)]
+                far = [y for y in inner if any(below(x) for x in below(y))]
+                if far and rng.random() < 0.7:
+                    r = rng.choice(far)
+                elif inner:
+                    r = rng.choice(inner)
+            old_above = above(r)
             cand = [b for b in range(n_regs) if b < r]
             rng.shuffle(cand)
-            bs = sorted(cand[: rng.choice([0, 1, 1, 2])], reverse=True)
+            bs = sorted(cand[: rng.choice([0, 1, 1, 1, 2] if deep else [0, 1, 1, 2])], reverse=True)
             ops.append(["setregbases", r, bs])
             cur_bases[r] = bs
+            if deep or rng.random() < 0.4:
+                # ask every registry below the re-based one (and itself) right away
+                moved = set(old_above) ^ set(above(r))
+                near = [w for w in where if w[0] in moved] or [w for w in where if w[0] in old_above + above(r)] or where
+                for x in [r] + below(r):
+                    if near:
+                        _r0, req, p = rng.choice(near)
+                        ops.append(q_subscriptions(x, (req, p)))
+                        if nobj and req and rng.random() < 0.25:
+                            ops.append(q_subscribers(x, (req, p)))
         elif k == "query" and keys:
             key = rng.choice(keys)
             u = rng.random()
@@ -378,10 +411,10 @@ def _dyn_case(rng, tier):
 
 def generate(run, tier):
     rng = run.rng("gen")
-    n = 200 if tier == "quick" else 2400
+    n = 170 if tier == "quick" else 2400
     cases = [_gen_case(rng, tier) for _ in range(n)]
     rng2 = run.rng("dyn")
-    m = 120 if tier == "quick" else 1500
+    m = 100 if tier == "quick" else 1500
     cases += [_dyn_case(rng2, tier) for _ in range(m)]
     return cases
 
